@@ -117,7 +117,24 @@ def min_leaves(facts, body, e, depth=0):
             if x.k == "agg" and x.ak == "closure":
                 clo = facts.by_path.get(x.q)
         has_min = clo is not None and any((t["f"].get("name") == "min") for _, t in clo.calls())
+        if not has_min:
+            fo = peel(p.args[2], through_try=False)       # the function item itself: `.fold(n, usize::min)`
+            has_min = fo is not None and fo.k == "const" and (fo.q or "").split("::")[-1] == "min"
         return leaves | l0, ok and o0 and has_min
+    if p.k == "call" and (p.q or "").split("::")[-1] in ("unwrap_or", "unwrap_or_default") and p.args:
+        # `[a.len(), b.len()].iter().copied().min().unwrap_or(usize::MAX)`
+        inner = peel(p.args[0], through_try=False)
+        if inner.k == "call" and (inner.q or "").split("::")[-1] == "min" and len(inner.args or []) == 1:
+            elems = _array_elems(inner.args[0])
+            leaves = set()
+            ok = elems is not None
+            for el in elems or []:
+                w = c09.len_of_window(el)
+                if w:
+                    leaves.add(w)
+                else:
+                    ok = False
+            return leaves, ok
     return set(), False
 
 
@@ -148,6 +165,9 @@ def rule_work(facts, col, rid_c19="C19.R2", rid_c08="C08.R1", rid_c12="C12.R2", 
                 % (sorted(info["reads"]), sorted(info["writes"]), ins, outs))
         # (c) n = min over all inputs, then over all outputs
         alt_n = None
+        classic = len(info["folds"]) == 2 and all(f["closure"] for f in info["folds"])
+        if not classic:
+            info["folds"] = []
         if not info["folds"]:
             # no fold-shaped clamp: judge the count expression itself as a minimum over window lengths, whatever its spelling
             # (`usize::MAX.min(a.len()).min(b.len())`, then `n.min(dst.len())`)
